@@ -279,3 +279,31 @@ PROPS["C03"] = {
         {"test": "^TestC03Enum$", "norapid": True, "quick": {"shards": 16}, "thorough": {"shards": 16, "timeout": 7200}},
     ],
 }
+
+PROPS["C06"] = {
+    "level": "exploration",
+    "technique": "schedule-independent lock-order oracle on generated histories (transaction monitor behind the fstxn hooks: ascending order, self-acquire, locks leaked past the reply, retry bound), plus generated and small-scope-enumerated concurrent programs under a watchdog with lock-wait evidence",
+    "level_text": "Order: sequential histories generated to vary inode-number geometry (delete/recreate cycles with restarts so that children are numbered below their parents, LOOKUP of '.'/'..' and of children on either side of the parent's number, cold caches after restart, RENAME with its four inode roles drawn from a pool of three directories and names incl. '.'/'..' and forged handles, listings) run under the monitor: every lock requested while others are held must be larger than all of them unless it was just allocated by the same transaction; requesting a lock already held panics in the hook (before the request would block) and is a violation; after every reply no transaction of the request may still hold a lock; an uncontended request may begin at most 8 transactions; a request that does not return within the watchdog with no other request running is a violation. Dynamic: the C03 programs (free-running, seeded yields, one client held at a lock/commit point) and a seed-dependent quarter (thorough: all) of the enumerated two-client cases run under a 10-20 s watchdog; a run that does not end is reported with the goroutine dump, the number of goroutines waiting in the lock table and the lock sets of unfinished transactions; the order rule and the leaked-lock rule apply there too.",
+    "level_note": "Liveness is checked through safety proxies (order, self-acquire, leaked locks, retry bound) and a watchdog; schedules of the dynamic part are sampled. Acquisitions from dir.Apply (READDIRPLUS) are exempt from the order rule: known finding KF1, printed by a probe that runs its listed input; READDIRPLUS is kept out of concurrent programs.",
+    "rule": ("unit = one sequential history / concurrent program / enumerated case. Non-trivial: a transaction acquired a lock while holding another one that it had not just allocated (counted by the monitor); enumerated case: the pause point was reached. distinct = FNV hash of the history."),
+    "assumptions": CONC_ASSUMPTIONS,
+    "required_classes": ["acquisitions_while_holding_another_lock", "concurrent_acquisitions_while_holding_another_lock", "enumerated_cases_run"],
+    "units": [
+        {"test": "^TestC06Order$", "quick": {"checks": 150, "shards": 8, "steps": 50}, "thorough": {"checks": 4000, "shards": 12, "steps": 80}},
+        {"test": "^TestC06Concurrent$", "quick": {"checks": 300, "shards": 6}, "thorough": {"checks": 15000, "shards": 8, "timeout": 7200}},
+        {"test": "^TestC06Enum$", "norapid": True, "quick": {"shards": 16}, "thorough": {"shards": 16, "timeout": 7200}},
+    ],
+}
+
+PROPS["C14"] = {
+    "level": "exploration",
+    "technique": "generated concurrent programs (rapid; the C03/C06 generators incl. seeded yields and pause points, direct and over the RPC transport) executed in a -race build of server and harness; the Go race detector is the oracle",
+    "level_text": "The concurrent programs of C03 (create/remove/rename races, concurrent write/truncate/read/getattr of one file with post-operation attributes, listings during updates, truncations large enough to start background shrinkers) run in a binary built with -race, GORACE=halt_on_error=1; each run ends with a clean shutdown, a shutdown that interrupts the shrinker (nfs.Crash), or a restart while background work may still be running. Any report whose stacks are in go-nfsd or go-journal code is a violation (the report is the evidence); a report confined to harness code would be an inconclusive run.",
+    "level_note": "Only schedules the detector observes; it reports races that happened, not ones that could. Race builds run 5-10x slower, hence fewer cases than C03.",
+    "rule": ("unit = one concurrent program. Non-trivial: at least two operations of different clients overlap in time and touch the same name or file (so two goroutines locked the same inode). distinct = FNV hash of the history."),
+    "assumptions": CONC_ASSUMPTIONS,
+    "required_classes": ["program_with_overlapping_operations_on_one_object", "program_with_shrinker_sized_truncations", "stopped_with_shrinker_interrupted"],
+    "units": [
+        {"test": "^TestC14Race$", "race": True, "quick": {"checks": 60, "shards": 16}, "thorough": {"checks": 3000, "shards": 16, "timeout": 7200}},
+    ],
+}
